@@ -31,6 +31,9 @@ pub struct SrvCfg {
     pub extra_env: Vec<(String, String)>,
     /// listen on the IPv6 loopback instead of 127.0.0.1
     pub v6: bool,
+    /// signals whose disposition is "ignore" when the server is exec'ed (what nohup does with
+    /// SIGHUP, and a non-interactive shell with SIGINT for a background job)
+    pub ignore_signals: Vec<i32>,
 }
 
 impl SrvCfg {
@@ -50,6 +53,7 @@ impl SrvCfg {
             tz: None,
             extra_env: Vec::new(),
             v6: false,
+            ignore_signals: Vec::new(),
         }
     }
 
@@ -209,6 +213,18 @@ pub fn spawn_server(bins: &Path, cfg: &SrvCfg, dir: &Path, tag: &str, raw_pairs:
         cmd.arg(&path);
     }
     cmd.stdin(Stdio::null()).stdout(std::fs::File::create(&out_path)?).stderr(std::fs::File::create(&err_path)?);
+    if !cfg.ignore_signals.is_empty() {
+        use std::os::unix::process::CommandExt;
+        let sigs = cfg.ignore_signals.clone();
+        unsafe {
+            cmd.pre_exec(move || {
+                for s in &sigs {
+                    libc::signal(*s, libc::SIG_IGN);
+                }
+                Ok(())
+            });
+        }
+    }
     let child = cmd.spawn()?;
     Ok(ServerProc { child, cfg: cfg.clone(), out_path, err_path, started: Instant::now() })
 }
@@ -244,6 +260,27 @@ impl ServerProc {
         unsafe {
             libc::kill(self.pid() as i32, sig);
         }
+    }
+
+    /// deliver the signal to one particular thread of the process (tgkill), as `kill <tid>` does
+    pub fn signal_thread(&self, tid: i32, sig: i32) {
+        unsafe {
+            libc::syscall(libc::SYS_tgkill, self.pid() as i32, tid, sig);
+        }
+    }
+
+    /// (tid, name) of every thread
+    pub fn threads(&self) -> Vec<(i32, String)> {
+        let mut v = Vec::new();
+        if let Ok(rd) = std::fs::read_dir(format!("/proc/{}/task", self.pid())) {
+            for e in rd.flatten() {
+                if let Ok(tid) = e.file_name().to_string_lossy().parse::<i32>() {
+                    let name = std::fs::read_to_string(e.path().join("comm")).unwrap_or_default().trim().to_string();
+                    v.push((tid, name));
+                }
+            }
+        }
+        v
     }
 
     /// wait for exit up to `limit`; returns (status, time)
